@@ -2,6 +2,7 @@ package main
 
 import (
 	"fmt"
+	"strings"
 
 	rwp "github.com/SKAARHOJ/rawpanel-lib/ibeam_rawpanel"
 )
@@ -184,6 +185,53 @@ func genC09(tier string, rng *Rng) {
 		sc.ID = mode + "-slow-consumer"
 		scs = append(scs, sc)
 		hist[mode+"-slow-consumer"]++
+	}
+	// a BUFFERED msgsToPanel channel filled in a burst, the lists being windows of ONE caller array
+	// with the later lists behind them (seed C09-7: a writer that batches queued lists by appending to
+	// the caller's slice overwrites the lists still waiting in the channel); and one long line / large
+	// message between short ones in a list (seed C09-8: an oversize line written around the pending
+	// buffer overtakes the lines before it)
+	for _, asc := range []bool{false, true} {
+		for _, nsub := range []int{1, 2} {
+			cs := goodConn(1)
+			if asc {
+				cs = goodAscConn("HWC#1=Down")
+			}
+			sc := &Scenario{Entry: "client", Conns: []ConnScript{cs}, SubStart: 100, Cancel: 1500, ToPanelCap: 16, SharedBacking: true}
+			for k := 0; k < nsub; k++ {
+				var list []Submission
+				for j := 0; j < 8; j++ {
+					list = append(list, Submission{Msgs: []*rwp.InboundMessage{randInMsg(rng, uint32(2000*(k+1)+4*j+1), false), randInMsg(rng, uint32(2000*(k+1)+4*j+3), false)}})
+				}
+				sc.Subs = append(sc.Subs, list)
+			}
+			mode := "bin"
+			if asc {
+				mode = "asc"
+			}
+			sc.ID = fmt.Sprintf("%s-burst-shared-%dsub", mode, nsub)
+			scs = append(scs, sc)
+			hist[mode+"-burst-shared"]++
+		}
+		for _, n := range []int{1390, 1400, 1460, 2900, 4090, 4100, 9000, 33000, 70000} {
+			cs := goodConn(1)
+			if asc {
+				cs = goodAscConn("HWC#1=Down")
+			}
+			js := "{\"k\":\"" + strings.Repeat("x", n) + "\"}"
+			long := &rwp.InboundMessage{Command: &rwp.Command{ActivatePanel: true, SetCalibrationProfile: &rwp.CalibrationProfile{Json: js}}}
+			short := &rwp.InboundMessage{Command: &rwp.Command{PanelBrightness: &rwp.Brightness{LEDs: 4, OLEDs: 6}}}
+			st := &rwp.InboundMessage{States: []*rwp.HWCState{{HWCIDs: []uint32{3}, HWCMode: &rwp.HWCMode{State: 4}}}}
+			sc := &Scenario{Entry: "client", Conns: []ConnScript{cs}, SubStart: 100, Cancel: 1500}
+			sc.Subs = [][]Submission{{{Msgs: []*rwp.InboundMessage{st, long, short}}, {Msgs: []*rwp.InboundMessage{short, st, long, st}}, {Msgs: []*rwp.InboundMessage{long}}, {Msgs: []*rwp.InboundMessage{st}}}}
+			mode := "bin"
+			if asc {
+				mode = "asc"
+			}
+			sc.ID = fmt.Sprintf("%s-long-between-short-%d", mode, n)
+			scs = append(scs, sc)
+			hist[mode+"-long-between-short"]++
+		}
 	}
 	// several connections, the panel changing its behaviour (and the negotiated encoding) from one to
 	// the next; six lists submitted on the LAST connection must arrive there in ITS encoding (matrix.go)
